@@ -176,7 +176,7 @@ def type_range(t):
 
 def refine_by_guard(c, env):
     """(env on the true edge, env on the false edge) of a condition `v OP constant` (or constant OP v); an environment is None when
-    that edge is infeasible.  A variable that the code itself compares against a constant is believed to range over its whole type
+    that edge is infeasible.  A PARAMETER that the code itself compares against a constant is believed to range over its whole type
     outside the guard: the comparison states that the other values can occur (Engler et al.: a check is a belief)."""
     c0 = strip(c)
     while isinstance(c0, dict) and c0.get('k') == 'cast':
@@ -196,7 +196,10 @@ def refine_by_guard(c, env):
             if kr is None or kr[0] != kr[1]:
                 continue
             K = kr[0]
-            base = env.get(v['id']) or type_range(v.get('t'))
+            # the whole type is the base only for a parameter (the caller chooses it); a local whose initialiser the analysis cannot
+            # bound is a name for run-time data that may obey an invariant established elsewhere: it stays undecided, as the expression
+            # it names would
+            base = env.get(v['id']) or (type_range(v.get('t')) if v.get('rk') == 'param' else None)
             if base is None:
                 continue
             lo, hi = base
